@@ -198,6 +198,14 @@ prop("C04", level="fault_enumeration",
      note=NETWORLD + "; a hang is a client future still pending when the paused-clock runtime is idle (24 virtual hours watchdog), not a wall-clock deadline")
 
 
+prop("C19",
+     title="Control and extended-operation values round-trip through their codecs",
+     rule="requests lane: for generated field values of each of the 14 request structs (PagedResults sizes over the integer length boundaries and cookies empty/zero/BER-looking/300 bytes; SyncRequest both modes x cookie absent/empty/present x reload hint; Pre/PostRead attribute lists; Assertion and MatchedValues over generated filter ASTs rendered with random escaping; ProxyAuth, TxnSpec identifiers over arbitrary Unicode; ManageDsaIT, RelaxRules with/without .critical(); WhoAmI, PasswordModify all 8 present/absent combinations, StartTxn, EndTxn commit/abort) the emitted OID and criticality are compared with the RFC's and the value is decoded with the harness' BER codec and compared with the RFC's structure holding exactly the fields (shortest-form integers, minimal lengths, DEFAULTs not encoded). responses lane: reference-encoded values (minimal or random non-minimal length octets, BOOLEAN TRUE as FF or other non-zero) for PagedResults, SyncState (4 states, cookie optional), SyncDone, SyncInfo (all four choices with every combination of optional cookie / default and non-default flag / UUID set), Pre/PostRead responses over generated entries, WhoAmI, PasswordModify and StartTxn responses are parsed by the library and compared field by field. envelope lane (hook H4): response control lists with criticality absent/FALSE/TRUE and value absent/empty/large decoded by the real decoder must come back unchanged (absent criticality = false, absent value = None). EndTxnResp is not in the property's list and is not checked. distinct = distinct generated values",
+     claim="held on every generated value of this run; per-struct counts are in the evidence",
+     design="3/C19", technique="differential monitor: library codecs vs RFC-derived reference encoders/decoders built on the harness BER model",
+     note="pure functions plus hook H4 for the envelope lane; PasswordModify with no fields may omit the request value or send an empty SEQUENCE (both accepted)")
+
+
 # ---- properties not (yet) claimed ----
 def _na():
     out = []
